@@ -121,9 +121,11 @@ def check_tensor(c):
                            lambda: 'i_min=%r y_min=%r i_max=%r y_max=%r' % (i1, y1, i2, y2), tags)
             res.check(y1 <= y2, 'tt.order', case, lambda: 'y_min=%r > y_max=%r' % (y1, y2), tags)
             if ok and (k >= N or rank1):
+                # fingerprint of finding F19: a rank-1 tensor, pruning active, the extreme of larger modulus is right and only the other one is missed
+                second = ['rank1-second-extreme'] if (rank1 and k < N and max(abs(y1), abs(y2)) >= amax - eps) else []
                 res.check(y1 <= tmin + eps and y2 >= tmax - eps, 'tt.full', case,
                           lambda: 'reported (min, max) = (%.12g, %.12g), true (%.12g, %.12g); k=%d N=%d' % (y1, y2, tmin, tmax, k, N),
-                          tags + ['full'])
+                          tags + ['full'] + second)
             if k < N or ties:
                 res.nt((c['shape'], c['ranks'], c['pat'], k))
             # --- maxvol variant: entries and order only --------------------------------------------
@@ -186,8 +188,9 @@ def check_tensor(c):
                     res.check(abs(y1 / sc - A[tuple(i1)]) <= t and abs(y2 / sc - A[tuple(i2)]) <= t and abs(yj / sc - A[tuple(j)]) <= t and y1 <= y2,
                               'scaled.entry', case, lambda: 'scaled by %g: values (%r, %r, %r) are not the scaled entries' % (sc, y1, y2, yj), tags)
                     if k >= N or rank1:
+                        second = ['rank1-second-extreme'] if (rank1 and k < N and abs(yj) / sc >= amax - 1e-9 * amax and max(abs(y1), abs(y2)) / sc >= amax - 1e-9 * amax) else []
                         res.check(abs(yj) / sc >= amax - 1e-9 * amax and y1 / sc <= tmin + 1e-9 * amax and y2 / sc >= tmax - 1e-9 * amax, 'scaled.full', case,
-                                  lambda: 'scaled by %g: optimum not found with k=%d' % (sc, k), tags + ['full'])
+                                  lambda: 'scaled by %g: optimum not found with k=%d' % (sc, k), tags + ['full'] + second)
     return res
 
 
